@@ -1,4 +1,4 @@
-"""C07 -- import tidying never changes what a name means (R07.1-R07.19)."""
+"""C07 -- import tidying never changes what a name means (R07.1-R07.20)."""
 from __future__ import annotations
 
 import ast
@@ -26,6 +26,7 @@ EXPLANATION = (
 EXPLANATION += " R07.17: an import statement is managed as whole lines only if every path to its registration consulted a comparison with the neighbouring statements' lines."
 EXPLANATION += " R07.18: the reader of `__all__` takes names from a list display and from a tuple display alike."
 EXPLANATION += " R07.19: the used-name finder visits every non-body child of a def / class (decorators, parameters, annotations, bases, keywords, type parameters) in the enclosing scope."
+EXPLANATION += " R07.20: in the function that qualifies the uses of from-imported names no handler swallows a lookup error."
 ASSUMPTIONS = ["scope-opening constructors without a handler in the finder (async def, lambda, comprehensions) only make more names count as used: conservative, not armed"]
 
 FINDER = "rope.refactor.importutils.module_imports._UnboundNameFinder"
@@ -54,6 +55,7 @@ def check(ctx, res) -> None:
     _whole_line_ownership_rule(ctx, res)
     _all_literal_forms_rule(ctx, res)
     header_children_rule(ctx, res, "R07.19")
+    _from_to_normal_stops_at_an_error_rule(ctx, res)
 
 
 def _use_regardless_of_ctx_rule(ctx, res) -> None:
@@ -714,3 +716,23 @@ def header_children_rule(ctx, res, rule: str) -> None:
                 f"the header of a {ctor} is visited field by field, and {missing} of {fields} is not among the fields read: a name used only there "
                 "(`class Shape(metaclass=ABCMeta)`, `def size[T: collections.abc.Sized](x: T)`) does not count as used, organize imports removes its import, and the moved or "
                 "tidied module raises NameError", function=m.qualname, fields_read=sorted(read & set(fields)))
+
+
+def _from_to_normal_stops_at_an_error_rule(ctx, res) -> None:
+    """R07.20: `froms_to_imports` rewrites `from m import a` to `import m` AND qualifies every use of `a` as `m.a`; the two halves belong
+    together.  A from-import whose names cannot be looked up (`from vendored import *` for a module rope cannot find) cannot be
+    qualified, and the action stops with the lookup error, nothing changed.  In the function that qualifies the uses no handler
+    ends without raising: skipping the names and going on lets the second half run alone -- `import vendored` replaces the star
+    import, `helper(2)` stays bare and raises NameError."""
+    from .common import _swallowing_handlers
+    idx = ctx.idx
+    f = idx.need_func("rope.refactor.importutils.ImportTools._from_to_normal")
+    loops = [l for l in walk_local(f.node) if isinstance(l, ast.For)]
+    if not loops:
+        raise AnalysisError("anchor=ImportTools._from_to_normal: loop over the imported names not found")
+    sw = [h for l in loops for h in _swallowing_handlers(l)]
+    res.add("R07.20", "ImportTools._from_to_normal|a-name-that-cannot-be-qualified-stops-the-action", not sw, f.where if not sw else f"{f.unit.rel}:{sw[0].lineno}",
+            "no handler in the loop over the imported names swallows a lookup error" if not sw else
+            f"`except {ast.unparse(sw[0].type) if sw[0].type else ''}:` in the loop that qualifies the uses of the imported names ends without raising: the names of a from-import that "
+            "cannot be looked up (a star import of a module rope cannot find) are skipped, the statement is still rewritten to `import m`, and the unqualified uses raise NameError",
+            function=f.qualname)
